@@ -305,7 +305,7 @@ async fn episode(p: &EpParams) -> EpReport {
                     if deleted_names.contains(&s) {
                         recreations_checked += 1;
                     }
-                    seq.create_sub(&s, &t, *rng.pick(&[10, 15])).await;
+                    seq.create_sub(&s, &t, *rng.pick(&[10, 15, 10, 15, 0, -5, i32::MIN])).await;
                     step = "create_sub".into();
                 } else {
                     continue;
